@@ -496,6 +496,12 @@ static void urlOne(vf::Ctx& c, const std::string& s)
 			volatile int port = u.port;
 			(void)port;
 			if ((int)strlen(*u.host) != u.host.length() || (int)strlen(*u.path) != u.path.length() || (int)strlen(*u.protocol) != u.protocol.length()) c.fail("url.field-length", "");
+			// the accessors derived from the parsed fields are total too
+			String q = u.query();
+			if ((int)strlen(*q) != q.length() || q.length() > as.length()) c.fail("url.query-length", vf::fmt("query() has length %d, strlen %d, input %d bytes", q.length(), (int)strlen(*q), as.length()));
+			Dic<> pr = u.params();
+			volatile int np = pr.length();
+			(void)np;
 		}
 		{
 			String d = Url::decode(as);
